@@ -16,7 +16,8 @@ RULE = ("MDP specs with labels of mixed kinds (ints, strings, tuples, frozendict
         "(zero-probability entry or implicit absorbing state or unsortable labels) for the matrix functions; for "
         "reachability an absorbing state with outgoing transitions or a zero-probability successor; distinct by "
         "spec hash."
-        ' Also: MDPs of 16-45 states (views and round trips), None / gapped-integer labels, int / numpy-bool absorbing flags.')
+        ' Also: MDPs of 16-45 states (views and round trips), None / gapped-integer labels, int / numpy-bool absorbing flags.'
+        ' 101-120-state problems; vocabularies in which states are named like actions or are (state, action) pairs.')
 ASSUMPTIONS = ["state/action list order is unspecified by the docstring: only set equality / equality with the "
                "explicit list is asserted", "for max_states below the closure size only soundness (superset of the "
                "initial support, subset of the closure) is asserted"]
